@@ -3,7 +3,7 @@
    are one model (they differ only in [has_reloader]) and the correspondence engine runs the same
    histories through all of them. *)
 From Coq Require Import List String NArith ZArith Bool.
-From AM Require Import Rust.Ast Gen.Private Ref.Load Ref.Sys Proofs.SysGrows Proofs.SysStatic Proofs.SysMap Tie.Graph.
+From AM Require Import Rust.Ast Gen.Private Ref.Load Ref.Sys Proofs.SysGrows Proofs.SysStatic Proofs.SysMap Tie.Graph Tie.Maps.
 Import ListNotations.
 
 (* loads (however Compounds nest, whether they succeed, fail or panic) only ever ADD entries *)
@@ -62,6 +62,24 @@ Proof. exact clear_empties. Qed.
 (* the code's keys: equality compares type AND id of both sides; hashing feeds type id then id *)
 Theorem C02_code_keys_compare_type_and_id : key_eq_wf dynKey_eq = true /\ key_hash_wf dynKey_hash = true.
 Proof. exact cache_keys_compare_type_and_id. Qed.
+
+(* every operation of both map implementations addresses the key it was given: the sharded map picks
+   the shard from the whole key (same computation for & and &mut access), take removes under that
+   key, remove is take *)
+Theorem C02_code_maps_address_the_given_key :
+  keyed_lookup Gen.CacheMap.AssetMap_get "read" "get" = true /\
+  keyed_lookup Gen.CacheMap.AssetMap_contains_key "read" "contains_key" = true /\
+  or_insert_wf Gen.CacheMap.AssetMap_insert "write" = true /\
+  take_wf Gen.CacheMap.AssetMap_take = true /\
+  shard_index_wf Gen.CacheMap.AssetMap_get_shard = true /\
+  shard_index_wf Gen.CacheMap.AssetMap_get_shard_mut = true /\
+  take_uses_shard_of_key Gen.CacheMap.AssetMap_take = true /\
+  remove_is_take Gen.CacheMap.AssetMap_remove = true /\
+  keyed_lookup Gen.LocalMap.AssetMap_get "borrow" "get" = true /\
+  keyed_lookup Gen.LocalMap.AssetMap_contains_key "borrow" "contains_key" = true /\
+  or_insert_wf Gen.LocalMap.AssetMap_insert "borrow_mut" = true /\
+  take_wf Gen.LocalMap.AssetMap_take = true.
+Proof. exact maps_as_modelled. Qed.
 
 (* two types under one id are two keys *)
 Example C02_types_are_separate_keys :
